@@ -498,9 +498,9 @@ fn main() {
     }
     // E4 (c): lane commands, link and sync requests, tiny lane -> runtime channels, burst delivery
     if quick {
-        run_runtime_grid(&ctx, "e4-runtime-grid", 1, 2, 20.0);
+        run_runtime_grid(&ctx, "e4-runtime-grid", 2, 2, 20.0);
     } else {
-        run_runtime_grid(&ctx, "e4-runtime-grid", 2, 3, 300.0);
+        run_runtime_grid(&ctx, "e4-runtime-grid", 3, 4, 300.0);
     }
     // E1 (c): the same scripts under every schedule with one deviation, for a subset of programs
     {
